@@ -31,7 +31,7 @@ def parse_reply_bytes(proto, c, rep):
     return {"kind": "ok", "wellformed": True, "closed": closed}
 
 
-def c06_scenarios(topo, origin, blocked_origin):
+def c06_scenarios(topo, origin, blocked_origin, fakes=None):
     """(name, proto, up, callable -> (conn, rep), expected kind, must_not_reach_upstream)"""
     T = ("ipv4", "127.0.0.1", origin.port)
     closed_port = bb.free_port()
@@ -48,6 +48,21 @@ def c06_scenarios(topo, origin, blocked_origin):
         out.append(("norule", proto, "none", lambda p=proto: topo.open(p, "none", T), "fail", True))
         out.append(("domain-unresolvable", proto, "direct", lambda p=proto: topo.open(p, "direct", ("domain", "no-such-host.invalid", 80)) if p != "socks4"
                     else topo.open(p, "direct", ("domain", "no-such-host.invalid", 80)), "fail", False))
+    # foreign upstream proxies that refuse with every kind of answer (a second redproxy only ever says "general failure" / 503)
+    if fakes:
+        def via(fake, pol, p, up):
+            fake.policy = lambda n, pol=pol: pol
+            return topo.open(p, up, T)
+        for proto in ("http", "socks5", "socks4"):
+            for code in (2, 3, 5, 8):
+                out.append(("upstream-socks5-code-%d" % code, proto, "fakesocks", lambda p=proto, c=code: via(fakes["fakesocks"], {"refuse": c}, p, "fakesocks"), "fail", False))
+            for code in (92, 93):
+                out.append(("upstream-socks4-code-%d" % code, proto, "fakesocks4", lambda p=proto, c=code: via(fakes["fakesocks4"], {"refuse": c}, p, "fakesocks4"), "fail", False))
+            for code in (403, 407, 502, 301, 100):
+                out.append(("upstream-http-status-%d" % code, proto, "fakehttp", lambda p=proto, c=code: via(fakes["fakehttp"], {"refuse": c}, p, "fakehttp"), "fail", False))
+            # positive controls through the same scripted upstreams
+            for up in ("fakesocks", "fakesocks4", "fakehttp"):
+                out.append(("upstream-scripted-ok", proto, up, lambda p=proto, u=up: via(fakes[u], {}, p, u), "ok", False))
     P5 = lambda up: topo.ports[("socks5", up)]
     out.append(("udp-to-tcp-only", "socks5", "lb", lambda: bb.socks5_connect(P5("lb"), ("ipv4", "0.0.0.0", 0), cmd=3), "fail", True))
     out.append(("bind", "socks5", "direct", lambda: bb.socks5_connect(P5("direct"), T, cmd=2), "fail", True))
@@ -109,9 +124,12 @@ def run_c06(pid, tier, t0):
     for mode, splice in modes:
         origin = bb.TcpOrigin()
         blocked = bb.TcpOrigin()
-        topo = scen.Topology(wd, "c06_" + mode, splice=splice, special=True, p2_deny_port=blocked.port, history=1000).start()
+        fakes = {"fakehttp": bb.FakeUpstream("http"), "fakesocks": bb.FakeUpstream("socks5"), "fakesocks4": bb.FakeUpstream("socks4")}
+        topo = scen.Topology(wd, "c06_" + mode, splice=splice, special=True, p2_deny_port=blocked.port, history=1000,
+                             fake={"fakehttp": ("http", fakes["fakehttp"].port), "fakesocks": ("socks", fakes["fakesocks"].port),
+                                   "fakesocks4": ("socks4", fakes["fakesocks4"].port)}).start()
         obs = []
-        for name, proto, up, fn, want, must_not in c06_scenarios(topo, origin, blocked):
+        for name, proto, up, fn, want, must_not in c06_scenarios(topo, origin, blocked, fakes):
             n_before = origin.accepted + blocked.accepted
             try:
                 c, rep = fn()
@@ -121,7 +139,7 @@ def run_c06(pid, tier, t0):
             est = bb.established(rep)
             upstream_seen = False
             if est:
-                o = origin.accept(timeout=2.0)
+                o = (fakes[up] if up in fakes else origin).accept(timeout=2.0)
                 upstream_seen = o is not None
                 # finish the tunnel gracefully
                 c.fin()
@@ -150,6 +168,8 @@ def run_c06(pid, tier, t0):
         topo.stop()
         origin.close()
         blocked.close()
+        for f in fakes.values():
+            f.close()
         if panic or not alive:
             v.report("life/proxy-died", str(panic)[:300], {"mode": mode})
         lines, by_port, trace = gather(topo, obs, 1000)
